@@ -421,7 +421,7 @@ func (p *Project) WithoutUnnecessaryResources() *Project {
 
 	networks := Networks{}
 	for k := range requiredNetworks {
-		if value, ok := p.Networks[k]; ok {
+		if value, ok := newProject.Networks[k]; ok {
 			networks[k] = value
 		}
 	}
@@ -429,7 +429,7 @@ func (p *Project) WithoutUnnecessaryResources() *Project {
 
 	volumes := Volumes{}
 	for k := range requiredVolumes {
-		if value, ok := p.Volumes[k]; ok {
+		if value, ok := newProject.Volumes[k]; ok {
 			volumes[k] = value
 		}
 	}
@@ -437,7 +437,7 @@ func (p *Project) WithoutUnnecessaryResources() *Project {
 
 	secrets := Secrets{}
 	for k := range requiredSecrets {
-		if value, ok := p.Secrets[k]; ok {
+		if value, ok := newProject.Secrets[k]; ok {
 			secrets[k] = value
 		}
 	}
@@ -445,7 +445,7 @@ func (p *Project) WithoutUnnecessaryResources() *Project {
 
 	configs := Configs{}
 	for k := range requiredConfigs {
-		if value, ok := p.Configs[k]; ok {
+		if value, ok := newProject.Configs[k]; ok {
 			configs[k] = value
 		}
 	}
